@@ -166,74 +166,42 @@ macro_rules! belt_three {
     };
 }
 
-/// Buffered CFB: one call of symbolic length n <= NMAX from an arbitrary valid state.
-/// Reference = per-byte machine:  out = in ^ st[pos]; st[pos] = ciphertext byte; pos += 1;
-/// when pos == b: st = E(st), pos = 0.  (Exactly NMAX oracle calls whatever n is.)
+/// Buffered CFB inductive step.  An arbitrary REACHABLE state is established through the API only
+/// (fresh object over a symbolic IV, then a first piece of A bytes with symbolic data: E(IV) ranges
+/// over all blocks, so every (feedback block, position A mod b) is reached), exported with
+/// get_state and re-imported with from_state (no assumption on what the exported pair looks
+/// like), then ONE call of SYMBOLIC length n <= NMAX.  Output == CFB recurrence on the A+n bytes.
 macro_rules! buf_step {
-    ($name:ident, $unw:expr, $ty:ident, $call:ident, $enc:expr, $bs:ty, $b:expr, $nmax:expr) => {
+    ($name:ident, $unw:expr, $ty:ident, $call:ident, $enc:expr, $bs:ty, $b:expr, $a:expr, $nmax:expr) => {
         #[kani::proof]
         #[kani::unwind($unw)]
         pub fn $name() {
             const B: usize = $b;
+            const A: usize = $a;
             const NMAX: usize = $nmax;
+            const M: usize = A + NMAX;
             let c = UfE::<$bs, U1>::with_key(kani::any());
-            let st0: [u8; B] = kani::any();
-            let pos0: usize = kani::any();
-            kani::assume(pos0 < B);
+            let iv: [u8; B] = kani::any();
             let n: usize = kani::any();
             kani::assume(n <= NMAX);
-            let data: [u8; NMAX] = kani::any();
-            // reference machine
-            let mut want = data;
-            let mut st = st0;
-            let mut pos = pos0;
-            let mut i = 0;
-            while i < NMAX {
-                let live = i < n;
-                if live {
-                    let o = data[i] ^ st[pos];
-                    want[i] = o;
-                    st[pos] = if $enc { o } else { data[i] };
-                    pos += 1;
-                }
-                let e = c.e(&st); // fixed call count; result used only on a block boundary
-                if live && pos == B {
-                    let mut j = 0;
-                    while j < B {
-                        st[j] = e[j];
-                        j += 1;
-                    }
-                    pos = 0;
-                }
-                i += 1;
-            }
-            // implementation
+            let data: [u8; M] = kani::any();
+            let want = spec::cfb_symlen::<M>(c.p(), $enc, &iv, &data, A + n);
             let mut buf = data;
-            let mut st1 = [0u8; B];
-            let mut pos1 = 0usize;
-            split_on!(pos0, 0, B - 1, p_ => {
-                split_on!(n, 0, NMAX, n_ => {
-                    let mut m = cfb_mode::$ty::from_state(c.clone(), blk::<$bs>(&st0), p_);
-                    m.$call(&mut buf[..n_]);
-                    let (s, p) = m.get_state();
-                    st1.copy_from_slice(s);
-                    pos1 = p;
-                });
+            split_on!(n, 0, NMAX, n_ => {
+                let mut m0 = cfb_mode::$ty::inner_iv_init(c.clone(), blk::<$bs>(&iv));
+                let (p1, rest) = buf.split_at_mut(A);
+                m0.$call(p1);
+                let (st, pos) = m0.get_state();
+                let mut m = cfb_mode::$ty::from_state(c.clone(), st, pos);
+                m.$call(&mut rest[..n_]);
             });
             let mut i = 0;
-            while i < NMAX {
-                assert!(buf[i] == want[i], "buffered CFB differs from the per-byte machine");
+            while i < M {
+                assert!(buf[i] == want[i], "buffered CFB differs from the CFB recurrence");
                 i += 1;
-            }
-            assert!(pos1 == pos, "exported position differs");
-            let mut j = 0;
-            while j < B {
-                assert!(st1[j] == st[j], "exported block differs");
-                j += 1;
             }
             kani::cover!(n == NMAX);
             kani::cover!(n == 0);
-            kani::cover!(pos0 == B - 1 && n == 1);
         }
     };
 }
@@ -255,20 +223,17 @@ macro_rules! buf_fresh {
             let k: usize = kani::any();
             kani::assume(k <= L);
             let mut buf = msg;
-            let mut pos_end = 0usize;
             split_on!(k, 0, L, k_ => {
                 let mut m = cfb_mode::$ty::inner_iv_init(c.clone(), blk::<$bs>(&iv));
                 let (p1, p2) = buf.split_at_mut(k_);
                 m.$call(p1);
                 m.$call(p2);
-                pos_end = m.get_state().1;
             });
             let mut i = 0;
             while i < L {
                 assert!(buf[i] == want[i], "buffered CFB differs from the CFB recurrence");
                 i += 1;
             }
-            assert!(pos_end == L % B);
             kani::cover!(k == B);
             kani::cover!(k == 0);
             kani::cover!(k == L);
@@ -310,53 +275,31 @@ macro_rules! prefix_case {
     };
 }
 
-/// Buffered CFB, fully concrete geometry (state position P0, call length N): the same claim as
-/// buf_step for one (pos, n) pair; cheap, so long calls (many whole blocks after a mid-block start)
-/// can be covered.
+/// Buffered CFB, fully concrete geometry: first piece of P0 bytes, then ONE call of N bytes; output
+/// == CFB recurrence.  Cheap, so long calls (many whole blocks after a mid-block start) are covered.
 macro_rules! buf_step_fixed {
     ($name:ident, $unw:expr, $ty:ident, $call:ident, $enc:expr, $bs:ty, $b:expr, $p0:expr, $n:expr) => {
         #[kani::proof]
         #[kani::unwind($unw)]
         pub fn $name() {
             const B: usize = $b;
-            const N: usize = $n;
+            const L: usize = $p0 + $n;
             let c = UfE::<$bs, U2>::with_key(kani::any());
-            let st0: [u8; B] = kani::any();
-            let data: [u8; N] = kani::any();
-            let mut want = data;
-            let mut st = st0;
-            let mut pos: usize = $p0;
-            let mut i = 0;
-            while i < N {
-                let o = data[i] ^ st[pos];
-                want[i] = o;
-                st[pos] = if $enc { o } else { data[i] };
-                pos += 1;
-                if pos == B {
-                    let e = c.e(&st);
-                    let mut j = 0;
-                    while j < B {
-                        st[j] = e[j];
-                        j += 1;
-                    }
-                    pos = 0;
-                }
-                i += 1;
-            }
-            let mut m = cfb_mode::$ty::from_state(c.clone(), blk::<$bs>(&st0), $p0);
+            let iv: [u8; B] = kani::any();
+            let data: [u8; L] = kani::any();
+            let mut want = [0u8; L];
+            spec::cfb(c.p(), $enc, &iv, &data, &mut want);
+            let mut m = cfb_mode::$ty::inner_iv_init(c.clone(), blk::<$bs>(&iv));
             let mut buf = data;
-            m.$call(&mut buf);
-            let mut i = 0;
-            while i < N {
-                assert!(buf[i] == want[i], "buffered CFB differs from the per-byte machine");
-                i += 1;
+            {
+                let (p1, p2) = buf.split_at_mut($p0);
+                m.$call(p1);
+                m.$call(p2);
             }
-            let (st1, pos1) = m.get_state();
-            assert!(pos1 == pos, "exported position differs");
-            let mut j = 0;
-            while j < B {
-                assert!(st1[j] == st[j], "exported block differs");
-                j += 1;
+            let mut i = 0;
+            while i < L {
+                assert!(buf[i] == want[i], "buffered CFB differs from the CFB recurrence");
+                i += 1;
             }
             kani::cover!(true);
         }
@@ -376,8 +319,12 @@ ctr_three!(ctr64le_b8_w2_p8_8_1, 64, Ctr64LE, spec::CTR64LE, u64, U8, 8, U2, 8, 
 ctr_three!(ctr128be_b16_w1_p5_16_12, 80, Ctr128BE, spec::CTR128BE, u128, U16, 16, U1, 5, 16, 12);
 ctr_three!(ctr128le_b16_w1_p15_2_17, 80, Ctr128LE, spec::CTR128LE, u128, U16, 16, U1, 15, 2, 17);
 belt_three!(belt_w1_p3_13_17, 80, U1, 3, 13, 17);
-buf_step!(buf_enc_step_b2_n5, 48, BufEncryptor, encrypt, true, U2, 2, 5);
-buf_step!(buf_dec_step_b2_n5, 48, BufDecryptor, decrypt, false, U2, 2, 5);
+buf_step!(buf_enc_step_b2_a0_n5, 48, BufEncryptor, encrypt, true, U2, 2, 0, 5);
+buf_step!(buf_enc_step_b2_a1_n5, 48, BufEncryptor, encrypt, true, U2, 2, 1, 5);
+buf_step!(buf_enc_step_b2_a2_n5, 48, BufEncryptor, encrypt, true, U2, 2, 2, 5);
+buf_step!(buf_dec_step_b2_a0_n5, 48, BufDecryptor, decrypt, false, U2, 2, 0, 5);
+buf_step!(buf_dec_step_b2_a1_n5, 48, BufDecryptor, decrypt, false, U2, 2, 1, 5);
+buf_step!(buf_dec_step_b2_a2_n5, 48, BufDecryptor, decrypt, false, U2, 2, 2, 5);
 buf_step_fixed!(buf_enc_long_b2_p1_n12, 48, BufEncryptor, encrypt, true, U2, 2, 1, 12);
 buf_step_fixed!(buf_dec_long_b2_p1_n12, 48, BufDecryptor, decrypt, false, U2, 2, 1, 12);
 buf_step_fixed!(buf_dec_long_b1_p0_n9, 48, BufDecryptor, decrypt, false, U1, 1, 0, 9);
@@ -402,14 +349,16 @@ ctr_three!(t_ctr128be_b16_w2_p16_1_33, 100, Ctr128BE, spec::CTR128BE, u128, U16,
 ctr_three!(t_ctr128le_b16_w2_p0_17_16, 100, Ctr128LE, spec::CTR128LE, u128, U16, 16, U2, 0, 17, 16);
 belt_three!(t_belt_w2_p16_0_33, 100, U2, 16, 0, 33);
 belt_three!(t_belt_w2_p15_18_1, 100, U2, 15, 18, 1);
-buf_step!(t_buf_enc_step_b3_n7, 48, BufEncryptor, encrypt, true, U3, 3, 7);
-buf_step!(t_buf_dec_step_b3_n7, 48, BufDecryptor, decrypt, false, U3, 3, 7);
-buf_step!(t_buf_enc_step_b4_n9, 48, BufEncryptor, encrypt, true, U4, 4, 9);
-buf_step!(t_buf_dec_step_b4_n9, 48, BufDecryptor, decrypt, false, U4, 4, 9);
+buf_step!(t_buf_enc_step_b3_a1_n7, 48, BufEncryptor, encrypt, true, U3, 3, 1, 7);
+buf_step!(t_buf_enc_step_b3_a2_n7, 48, BufEncryptor, encrypt, true, U3, 3, 2, 7);
+buf_step!(t_buf_dec_step_b3_a1_n7, 48, BufDecryptor, decrypt, false, U3, 3, 1, 7);
+buf_step!(t_buf_dec_step_b3_a3_n7, 48, BufDecryptor, decrypt, false, U3, 3, 3, 7);
+buf_step!(t_buf_enc_step_b4_a3_n9, 48, BufEncryptor, encrypt, true, U4, 4, 3, 9);
+buf_step!(t_buf_dec_step_b4_a1_n9, 48, BufDecryptor, decrypt, false, U4, 4, 1, 9);
 buf_step_fixed!(t_buf_enc_long_b4_p3_n38, 64, BufEncryptor, encrypt, true, U4, 4, 3, 38);
 buf_step_fixed!(t_buf_dec_long_b4_p1_n38, 64, BufDecryptor, decrypt, false, U4, 4, 1, 38);
 buf_step_fixed!(t_buf_dec_long_b2_p0_n19, 48, BufDecryptor, decrypt, false, U2, 2, 0, 19);
-buf_step!(t_buf_enc_step_b1_n3, 48, BufEncryptor, encrypt, true, U1, 1, 3);
+buf_step!(t_buf_enc_step_b1_a1_n3, 48, BufEncryptor, encrypt, true, U1, 1, 1, 3);
 buf_fresh!(t_buf_enc_fresh_b3_l7, 48, BufEncryptor, encrypt, true, U3, 3, 7);
 buf_fresh!(t_buf_dec_fresh_b3_l7, 48, BufDecryptor, decrypt, false, U3, 3, 7);
 prefix_case!(t_prefix_cfb_enc_b3_w2_l10, 48, cfb_mode, Encryptor, enc, U3, 3, U2, 10);
